@@ -86,6 +86,28 @@ var c14Kind = registerKind("c14", func(in c14In) string {
 		if verr := lc.Validate(); (verr == nil) != valid {
 			return fmt.Sprintf("%s literal lifecycle 0x%04x: Validate = %v; want valid=%v", p, v, verr, valid)
 		}
+		// instances are independent: a claims-set filled by the setter and then
+		// re-used as a decode target (per-type unmarshal writes into it) must
+		// not influence what a FRESH claims-set stores for the same value
+		if valid {
+			used, _ := psatoken.NewClaims(p.Name())
+			_ = used.SetSecurityLifeCycle(v)
+			om := baseValid(p, 0)
+			om.Lifecycle = u16p(v ^ 0x2100)
+			type cu interface{ UnmarshalCBOR([]byte) error }
+			_ = used.(cu).UnmarshalCBOR(om.WireBytes())
+			om.Lifecycle = u16p(0xffff)
+			if doc, jerr := json.Marshal(om.ExpectJSON()); jerr == nil {
+				_ = json.Unmarshal(doc, used)
+			}
+			fresh, _ := psatoken.NewClaims(p.Name())
+			if serr := fresh.SetSecurityLifeCycle(v); serr != nil {
+				return fmt.Sprintf("%s SetSecurityLifeCycle(0x%04x) on a fresh claims-set fails after another claims-set was re-used as a decode target: %v", p, v, serr)
+			}
+			if got, gerr := fresh.GetSecurityLifeCycle(); gerr != nil || got != v {
+				return fmt.Sprintf("%s fresh claims-set: Set(0x%04x) then Get gives 0x%04x, %v after ANOTHER claims-set that had been set to the same value was re-used as a decode target (shared storage)", p, v, got, gerr)
+			}
+		}
 		// the setter on a claims-set that ALREADY holds a value (the same one,
 		// a valid one, an invalid one: stored by a non-validating route)
 		for _, prev := range []uint16{v, 0x3000, 0xffff, v ^ 0x0100} {
